@@ -522,6 +522,12 @@ func writeReplay(c *Case) string {
 // runCheck runs a property under rapid (or replays a recorded case when VERIF_REPLAY is set).
 func runCheck(t *testing.T, prop, check, rule string, fn func(c *Case)) {
 	t.Helper()
+	runCheckPrefix(t, prop, check, rule, nil, fn)
+}
+
+// runCheckPrefix is runCheck with the first choices forced to prefix.
+func runCheckPrefix(t *testing.T, prop, check, rule string, prefix []int, fn func(c *Case)) {
+	t.Helper()
 
 	if path := os.Getenv("VERIF_REPLAY"); path != "" {
 		replayCheck(t, prop, check, path, fn)
@@ -532,7 +538,12 @@ func runCheck(t *testing.T, prop, check, rule string, fn func(c *Case)) {
 	st := statsFor(prop, check, rule)
 
 	rapid.Check(t, func(rt *rapid.T) {
-		c := newCase(prop, check, rapidChooser{rt}, t, rt)
+		var ch Chooser = rapidChooser{rt}
+		if len(prefix) > 0 {
+			ch = &prefixChooser{prefix: prefix, inner: ch}
+		}
+
+		c := newCase(prop, check, ch, t, rt)
 		runCase(c, fn)
 		st.record(c)
 
